@@ -32,24 +32,25 @@ func (r Root) Key() string {
 }
 
 type RootResult struct {
-	Root         Root
-	Paths        int
-	Infeasible   int
-	Decisions    int
-	Steps        int
-	Asserts      int
-	AssertsFold  int
-	Failures     []*Failure
-	Inconclusive []string
-	Covers       map[string]bool
-	Witnesses    []*Witness
-	Probes       []*Witness
-	CoverWitness map[string]*Witness
-	Funcs        map[string]bool
-	RaceChecks   int
+	Root                        Root
+	Paths                       int
+	Infeasible                  int
+	Decisions                   int
+	Steps                       int
+	Asserts                     int
+	AssertsFold                 int
+	Failures                    []*Failure
+	Inconclusive                []string
+	Covers                      map[string]bool
+	Witnesses                   []*Witness
+	Probes                      []*Witness
+	BoundHits                   int // paths that ended at their step / allocation bound
+	CoverWitness                map[string]*Witness
+	Funcs                       map[string]bool
+	RaceChecks                  int
 	CrossChecked, CrossDisagree int
-	mu           sync.Mutex
-	pending      int
+	mu                          sync.Mutex
+	pending                     int
 }
 
 type workItem struct {
@@ -150,6 +151,12 @@ func (x *Explorer) Run() {
 					skip = true
 					rr.Inconclusive = appendUniq(rr.Inconclusive, "time budget exhausted")
 				}
+				if rr.BoundHits >= 3 {
+					// three paths of this root ran into their step / allocation bound: the root is not decided
+					// (it is reported INCONCLUSIVE and its probes run natively); the rest would take hours
+					skip = true
+					rr.Inconclusive = appendUniq(rr.Inconclusive, "exploration of this root stopped after 3 paths exceeded their step or allocation bound")
+				}
 				if x.stopOnFail && len(rr.Failures) >= x.failCap(rr) {
 					// counterexamples found: no need to exhaust the (possibly exploding) rest of this root
 					skip = true
@@ -198,6 +205,9 @@ func (x *Explorer) Run() {
 						rr.Failures = append(rr.Failures, pr.Failure)
 					case "inconclusive":
 						rr.Inconclusive = appendUniq(rr.Inconclusive, pr.Reason)
+						if strings.HasPrefix(pr.Reason, "steps") {
+							rr.BoundHits++
+						}
 					}
 					for _, s := range pr.Inconclusive {
 						rr.Inconclusive = appendUniq(rr.Inconclusive, s)
